@@ -10,6 +10,7 @@ package vrt
 
 import (
 	"fmt"
+	"os"
 	"reflect"
 	"runtime"
 	"sort"
@@ -249,6 +250,7 @@ type Sched struct {
 	RoundRobin bool
 	lastTid    int
 	TraceAll  bool
+	TickNow   bool // every clock read advances virtual time by 1 ns (set per run by a harness)
 	Trace     []string
 	finished  bool
 }
@@ -281,6 +283,7 @@ func Run(choose Chooser, maxSteps int, body func()) (failure string) {
 	S.external = map[uintptr]bool{}
 	S.choose = choose
 	S.Steps = 0
+	S.TickNow = false
 	S.MaxStep = maxSteps
 	S.Failure = ""
 	S.FirstPanic = ""
@@ -559,6 +562,9 @@ func enabledAlts() []Alt {
 	return alts
 }
 
+// VRT_TRACE=1 prints every executed transition to stderr (debugging aid).
+var traceEnv = os.Getenv("VRT_TRACE") != ""
+
 // Quiesce parks the caller until no other thread is enabled (time does not move).
 func Quiesce() {
 	if !S.Active {
@@ -645,6 +651,9 @@ func dispatch(me *Thread) {
 			}
 			S.Points = append(S.Points, PointRec{Tid: a.T.ID, Name: a.Op.Name, Kind: a.Op.Kind, Case: a.Case,
 				NAlts: len(alts), Chosen: k, Cur: cur, objs: objs, write: !ro})
+		}
+		if traceEnv {
+			fmt.Fprintf(os.Stderr, "VRT t%d(%s) %s case%d [%d alts] clk+%dms\n", a.T.ID, a.T.Name, a.Op.Name, a.Case, len(alts), (S.Clock-Epoch0)/1e6)
 		}
 		if S.TraceAll {
 			S.Trace = append(S.Trace, fmt.Sprintf("t%d(%s) %s case%d [%d alts] clk+%dms", a.T.ID, a.T.Name, a.Op.Name, a.Case, len(alts), (S.Clock-Epoch0)/1e6))
